@@ -984,6 +984,79 @@ func streamCancel(c *Ctx) {
 				return "the handler never reported", false
 			}
 		}})
+		// K14: contexts that carry a *cause* (context.WithCancelCause, WithTimeoutCause): cancelled
+		// is cancelled and expired is expired, whatever context.Cause would say
+		for _, which := range []string{"cancel-cause-before-unary", "timeout-cause-before-unary", "cancel-cause-between-receives"} {
+			which := which
+			scs = append(scs, scenario{"cancel-before-call", "a context ended with a custom cause: " + which + ", " + proto, func() (string, bool) {
+				h2 := true
+				srv := startServer(connect.NewServerStreamHandler("/s/m", func(ctx context.Context, r *connect.Request[[]byte], s *connect.ServerStream[[]byte]) error {
+					_ = s.Send(&[]byte{1})
+					<-ctx.Done()
+					return ctx.Err()
+				}, connect.WithCodec(rawCodec{"raw"})), h2)
+				defer srv.Close()
+				cl := connect.NewClient[[]byte, []byte](srv.Client(), srv.URL+"/s/m", append(protoOpts(proto), connect.WithCodec(rawCodec{"raw"}))...)
+				cause := errors.New("shutting down for maintenance")
+				switch which {
+				case "cancel-cause-before-unary":
+					ctx, cancel := context.WithCancelCause(context.Background())
+					cancel(cause)
+					_, err := cl.CallUnary(ctx, connect.NewRequest(&[]byte{1}))
+					return codeName(err), codeName(err) == "canceled"
+				case "timeout-cause-before-unary":
+					ctx, cancel := context.WithTimeoutCause(context.Background(), time.Millisecond, cause)
+					defer cancel()
+					<-ctx.Done()
+					_, err := cl.CallUnary(ctx, connect.NewRequest(&[]byte{1}))
+					return codeName(err), codeName(err) == "deadline_exceeded"
+				}
+				ctx, cancel := context.WithCancelCause(context.Background())
+				defer cancel(nil)
+				st, err := cl.CallServerStream(ctx, connect.NewRequest(&[]byte{1}))
+				if err != nil {
+					return "call: " + codeName(err), false
+				}
+				if !st.Receive() {
+					return "first Receive failed: " + codeName(st.Err()), false
+				}
+				cancel(cause)
+				more := st.Receive()
+				got := fmt.Sprintf("more=%v err=%s", more, codeName(st.Err()))
+				_ = st.Close()
+				return got, got == "more=false err=canceled"
+			}})
+		}
+		// K15: a context that was *cancelled* before its (short) deadline and is used after that
+		// instant is a cancelled context: every operation reports canceled - Send and the
+		// response side alike
+		for _, kind := range []string{"client", "bidi"} {
+			kind := kind
+			scs = append(scs, scenario{"cancel-before-call", "context with a 20ms deadline cancelled at once, used 60ms later, " + kind + " " + proto, func() (string, bool) {
+				srv := startServer(connect.NewBidiStreamHandler("/s/m", func(ctx context.Context, s *connect.BidiStream[[]byte, []byte]) error {
+					return nil
+				}, connect.WithCodec(rawCodec{"raw"})), true)
+				defer srv.Close()
+				cl := connect.NewClient[[]byte, []byte](srv.Client(), srv.URL+"/s/m", append(protoOpts(proto), connect.WithCodec(rawCodec{"raw"}))...)
+				ctx, cancel := context.WithTimeout(context.Background(), 20*time.Millisecond)
+				cancel()
+				time.Sleep(60 * time.Millisecond)
+				var sendErr, recvErr error
+				if kind == "client" {
+					st := cl.CallClientStream(ctx)
+					sendErr = st.Send(&[]byte{1})
+					_, recvErr = st.CloseAndReceive()
+				} else {
+					st := cl.CallBidiStream(ctx)
+					sendErr = st.Send(&[]byte{1})
+					_ = st.CloseRequest()
+					_, recvErr = st.Receive()
+					_ = st.CloseResponse()
+				}
+				got := fmt.Sprintf("send=%s receive=%s", codeName(sendErr), codeName(recvErr))
+				return got, got == "send=canceled receive=canceled"
+			}})
+		}
 		// K6: the context ends between the prefix write and the payload write of one Send
 		scs = append(scs, scenario{"cancel-mid-send", "context cancelled between the two writes of one Send, " + proto, func() (string, bool) {
 			return cancelMidSend(proto)
@@ -1221,6 +1294,60 @@ func streamLife(c *Ctx) {
 				return fmt.Sprintf("send=%s receive=%s", codeName(serr), got), codeName(serr) == want && got == want
 			}})
 		}
+		// L1e: a handler whose first Send fails (the codec cannot marshal the message) and which
+		// then returns its own error: the client's Receive reports that error - the handler's
+		// actual outcome - in every protocol
+		scs = append(scs, scenario{"life-send-after-finish", "server-stream handler: first Send fails in the codec, then the handler returns aborted, " + proto, func() (string, bool) {
+			h := connect.NewServerStreamHandler("/s/m", func(ctx context.Context, r *connect.Request[[]byte], s *connect.ServerStream[[]byte]) error {
+				if err := s.Send(&[]byte{1}); err == nil {
+					return connect.NewError(connect.CodeInternal, errors.New("the broken codec marshalled"))
+				}
+				return connect.NewError(connect.CodeAborted, errors.New("boom"))
+			}, connect.WithCodec(brokenMarshalCodec{rawCodec{"raw"}}))
+			srv := startServer(h, true)
+			defer srv.Close()
+			cl := connect.NewClient[[]byte, []byte](srv.Client(), srv.URL+"/s/m", append(protoOpts(proto), connect.WithCodec(rawCodec{"raw"}))...)
+			st, err := cl.CallServerStream(context.Background(), connect.NewRequest(&[]byte{1}))
+			if err != nil {
+				return "call: " + codeName(err), false
+			}
+			for st.Receive() {
+			}
+			got := codeName(st.Err())
+			_ = st.Close()
+			return got, got == "aborted"
+		}})
+		// L1f: the server refuses the call at once (415: it does not know the client's codec)
+		// while the client of a bidi call still has its request side open: the refusal arrives -
+		// Receive returns without waiting for CloseRequest - and later Sends fail with io.EOF
+		scs = append(scs, scenario{"life-response-after-failed-first-send", "bidi call with a codec the handler does not know (HTTP 415), Receive before CloseRequest, " + proto, func() (string, bool) {
+			h := connect.NewBidiStreamHandler("/s/m", func(ctx context.Context, s *connect.BidiStream[[]byte, []byte]) error {
+				return nil
+			}, connect.WithCodec(rawCodec{"raw"}))
+			srv := startServer(h, true)
+			defer srv.Close()
+			cl := connect.NewClient[[]byte, []byte](srv.Client(), srv.URL+"/s/m", append(protoOpts(proto), connect.WithCodec(rawCodec{"unheard-of"}))...)
+			s := cl.CallBidiStream(context.Background())
+			_ = s.Send(&[]byte{1})
+			done := make(chan string, 1)
+			go func() {
+				_, rerr := s.Receive()
+				done <- codeName(rerr)
+			}()
+			got := ""
+			select {
+			case got = <-done:
+			case <-time.After(3 * time.Second):
+				got = "still blocked after 3s"
+			}
+			var serr error
+			for i := 0; i < 200 && serr == nil; i++ {
+				serr = s.Send(&[]byte{2})
+			}
+			_ = s.CloseRequest()
+			_ = s.CloseResponse()
+			return fmt.Sprintf("receive=%s later-send-eof=%v", got, errors.Is(serr, io.EOF)), got != "still blocked after 3s" && got != "none" && errors.Is(serr, io.EOF)
+		}})
 		// L2b: the client abandons a server stream with megabytes still unread (more than the
 		// library is willing to drain): Close returns, the response body is closed, and the
 		// handler - held up by flow control until then - returns
